@@ -50,8 +50,9 @@ class Slice:
         R1 = mkstruct(f"{t}R1", {"k": X.Int8, "r": X.Ref[S1], "ra": X.Ref[X.Float64[:]], "u": U})
         S4 = mkstruct(f"{t}S4", {"tag": X.Int64, "inner": S2})  # dynamic struct inline at a constant non-zero offset
         S5 = mkstruct(f"{t}S5", {"p": X.Float32, "q": S4[:], "r": S1[2]})
-        self.S1, self.S2, self.S3, self.U, self.R1, self.S4, self.S5 = S1, S2, S3, U, R1, S4, S5
-        self.roots = [S1, S2, S3, R1, S4, S5]
+        S6 = mkstruct(f"{t}S6", {"n": X.Int64, "m": X.Float64[:, :], "v": X.Int32[:], "w": X.Int16[:1, :0]})  # N-d dynamic arrays not at offset 0
+        self.S1, self.S2, self.S3, self.U, self.R1, self.S4, self.S5, self.S6 = S1, S2, S3, U, R1, S4, S5, S6
+        self.roots = [S1, S2, S3, R1, S4, S5, S6]
         self.arrays = [
             X.Float64[:, 3], X.Int16[2:1, 3:0], X.Int64[:, :, 2], S1[:], S2[:], S2[2], X.UInt8[5], X.Float32[:],
             X.String[:],
